@@ -218,21 +218,39 @@ func GenC04(r *hx.Rng, tier string, w io.Writer) {
 		}
 		s.probes()
 	}
-	// a crash in the middle of writing the on-disk caches at shutdown: every cache file cut at several lengths
-	files := []string{"header/items_by_height.gob", "header/items_by_hash.gob", "header/hashes.gob", "header/da_included.gob",
-		"data/items_by_height.gob", "data/items_by_hash.gob", "data/hashes.gob", "data/da_included.gob"}
+	// a crash in the middle of writing the on-disk caches at shutdown: the save of every cache file cut at several
+	// lengths, into a fresh directory (no older version) and over the files of an earlier clean stop (older
+	// versions present). What a cut leaves on disk is decided by the runner from a probe of the real pkg/cache
+	// (atomic replacement: old version + partial .tmp file; in-place rewrite: truncated file) - see saveCaches.
 	fracs := []int{0, 50, 100}
 	if tier == "thorough" {
 		fracs = []int{0, 1, 10, 33, 50, 90, 99, 100}
 	}
-	for _, f := range files {
+	for _, f := range CacheFiles {
 		for _, fr := range fracs {
-			s.reset(1, 0)
-			s.step(sym{"batch", 1, 1, "ok"}, false)
-			s.step(sym{"batch", 2, 1, "ok"}, false)
-			fmt.Fprintf(w, "restart cut=%s frac=%d\n", f, fr)
-			s.probes()
+			for _, older := range []bool{false, true} {
+				s.reset(1, 0)
+				s.step(sym{"batch", 1, 1, "ok"}, false)
+				if older {
+					fmt.Fprintln(w, "restart")
+				}
+				s.step(sym{"batch", 2, 1, "ok"}, false)
+				fmt.Fprintf(w, "restart cut=%s frac=%d\n", f, fr)
+				s.probes()
+				// the next clean stop saves over whatever the crash left (a left-over .tmp included) and restarts
+				fmt.Fprintln(w, "restart")
+				s.step(sym{"batch", 1, 1, "ok"}, false)
+			}
 		}
+	}
+	// two crashed saves in a row
+	for i := 0; i+1 < len(CacheFiles); i += 3 {
+		s.reset(1, 0)
+		s.step(sym{"batch", 1, 1, "ok"}, false)
+		fmt.Fprintf(w, "restart cut=%s frac=%d\n", CacheFiles[i+1], 40)
+		s.step(sym{"batch", 1, 1, "ok"}, false)
+		fmt.Fprintf(w, "restart cut=%s frac=%d\n", CacheFiles[i], 70)
+		s.probes()
 	}
 }
 
